@@ -31,8 +31,8 @@ def r1_stdout(ctx):
     printers = {}
     for caller, b, t in call_sites(prog, lambda k, o, c: k in PRINT):
         f = prog.fns[caller]
-        if f.get("test"):
-            continue
+        if f.get("test") or f["crate"] not in getattr(ctx, "engine_crates", {f["crate"]}):
+            continue   # other binaries of the workspace (perft, pgn test, lichess bot) are not the engine process
         printers.setdefault(caller, []).append(t["line"])
     lib = sorted(k for k in printers if prog.fns[k]["crate"] != "inkayaku_engine_app")
     ctx.ob(rid, "library-crates-do-not-print", not lib, "" if not lib else "library code writes to stdout directly (bypassing the UCI transmitter): %s" % lib,
